@@ -103,7 +103,9 @@ theorem several_shipped_methods (names : List String)
     well-typed configuration (all five keys present) the model has no failure other than the
     named ones — parsing fails only with unknown_picked / unknown_score / unknown_grouping, and
     a parsed method either writes a table or is refused with missing_input, no_score_column,
-    missing_mq_protein_groups or rescue_unsupported -/
+    missing_mq_protein_groups, no_protein_score_file (the REPAIRED refusal of `MQ_protein` outside MaxQuant input;
+    the shipped code dies there with `FileNotFoundError ''` — the C18 finding, see `no_protein_score_file_iff`)
+    or rescue_unsupported -/
 theorem unsupported_is_refused (useGenes : Bool) (s : Supplied) (t : MethodToml)
     (hp : t.pickedStrategy.isSome = true) (hs : t.scoreType.isSome = true)
     (hsh : t.sharedPeptides.isSome = true) (hg : t.grouping.isSome = true)
@@ -114,7 +116,7 @@ theorem unsupported_is_refused (useGenes : Bool) (s : Supplied) (t : MethodToml)
         (runMethod s cfg = .ok () ∨
          ∃ e, runMethod s cfg = .error e ∧
            (e = .missingInput ∨ e = .noScoreColumn ∨ e = .missingMqProteinGroups ∨
-            e = .rescueUnsupported))) := by
+            e = .noProteinScoreFile ∨ e = .rescueUnsupported))) := by
   obtain ⟨pk, hpk⟩ := Option.isSome_iff_exists.mp hp
   obtain ⟨st, hst⟩ := Option.isSome_iff_exists.mp hs
   obtain ⟨sh, hsh'⟩ := Option.isSome_iff_exists.mp hsh
@@ -123,7 +125,7 @@ theorem unsupported_is_refused (useGenes : Bool) (s : Supplied) (t : MethodToml)
   have run : ∀ cfg, (runMethod s cfg = .ok () ∨
          ∃ e, runMethod s cfg = .error e ∧
            (e = .missingInput ∨ e = .noScoreColumn ∨ e = .missingMqProteinGroups ∨
-            e = .rescueUnsupported)) := by
+            e = .noProteinScoreFile ∨ e = .rescueUnsupported)) := by
     intro cfg
     cases hr : runMethod s cfg with
     | ok u => exact Or.inl rfl
@@ -158,7 +160,9 @@ theorem missing_input_iff (s : Supplied) (c : Cfg) :
       · cases h'
       · split at h'
         · cases h'
-        · split at h' <;> cases h'
+        · split at h'
+          · cases h'
+          · split at h' <;> cases h'
     · intro h'; cases h'
 
 /-- "(… rescue not possible for this score)": the rescue refusal is raised exactly for a method
@@ -170,10 +174,11 @@ theorem rescue_unsupported_iff (s : Supplied) (c : Cfg) :
       (c.grouping.needsMqGroups = true → s.mqGroups = true) ∧
       c.grouping.rescues = true ∧ c.score.canRescue = false := by
   unfold runMethod
+  cases h0 : (c.input == Input.mq) <;>
   cases h1 : s.has c.input <;> cases h2 : c.scoreColumn.isNone <;>
     cases h3 : c.grouping.needsMqGroups <;> cases h4 : s.mqGroups <;>
     cases h5 : c.grouping.rescues <;> cases h6 : c.score.canRescue <;>
-    simp_all [Option.isNone_iff_eq_none, Option.isSome_iff_ne_none]
+    simp [isSome_eq_not_isNone', h2]
 
 /-- a table is written exactly under the four preconditions (input present, a score column,
     a proteinGroups file if the grouping reads one, rescue only for a score that can rescue) -/
@@ -356,8 +361,9 @@ example : pipelineConfigOf false { badRescue with grouping := some "mq_native" }
 
 The tool's refusals are `Err` values.  Three of them can only arise while the methods are located and parsed
 (`unknownMethod`, `unknownPicked`/`unknownScore`/`unknownGrouping`), one between parsing and the method loop
-(`missingFasta`), four inside the loop (`missingInput`, which is a warning and does not stop the run, and
-`noScoreColumn`, `missingMqProteinGroups`, `rescueUnsupported`, which end it: the entry `Outcome.abort e`).  For the
+(`missingFasta`), five inside the loop (`missingInput`, which is a warning and does not stop the run, and
+`noScoreColumn`, `missingMqProteinGroups`, `noProteinScoreFile`, `rescueUnsupported`, which end it: the entry
+`Outcome.abort e`).  For the
 executable `runCli` the first two groups are its `.error` results, the last group the entries of its outcome list. -/
 
 /-- "(… with and without a FASTA file)": the run is refused for the missing FASTA file / peptide → protein map
@@ -565,47 +571,71 @@ theorem parse_refusals_iff (g : Bool) (t : MethodToml) (pk st sh gr lb : String)
   · rw [h3, hP', hS', hG]
   · rw [h4, hP', hS', hG']
 
-/-- "no score column": a parsed method is refused for lack of an evidence score column exactly when its input
-    file was given and its score is MaxQuant's protein score (`MQ_protein`: `get_score_column()` is `None`) -/
-theorem no_score_column_iff (s : Supplied) (c : Cfg) :
-    runMethod s c = .error .noScoreColumn ↔ s.has c.input = true ∧ c.score = .mqProtein := by
-  have hcol : c.scoreColumn.isNone = true ↔ c.score = .mqProtein := by
-    unfold Cfg.scoreColumn
-    cases c.score <;> simp <;> split <;> simp
-  unfold runMethod
-  cases h1 : s.has c.input
-  · simp
-  · simp only [Bool.not_true, Bool.false_eq_true, if_false, true_and]
-    rw [← hcol]
-    cases h2 : c.scoreColumn.isNone
-    · simp only [Bool.false_eq_true, if_false, iff_false]
-      intro h'
-      split at h'
-      · cases h'
-      · split at h' <;> cases h'
-    · simp
+/-- the score `MQ_protein` is the one without an evidence score column (`get_score_column()` is `None`) -/
+theorem scoreColumn_isNone_iff (c : Cfg) : c.scoreColumn.isNone = true ↔ c.score = .mqProtein := by
+  unfold Cfg.scoreColumn
+  cases c.score <;> simp <;> split <;> simp
 
-/-- "missing proteinGroups file": a parsed method is refused for the missing `--mq_protein_groups` exactly when
-    its input file was given, it has a score column, its grouping is MaxQuant's own (`mq_native`,
-    `rescued_mq_native`) and no proteinGroups file was given -/
-theorem missing_mq_protein_groups_iff (s : Supplied) (c : Cfg) :
-    runMethod s c = .error .missingMqProteinGroups ↔
-      s.has c.input = true ∧ c.scoreColumn.isSome = true ∧
-      (c.grouping = .mqNative ∨ c.grouping = .rescuedMqNative) ∧ s.mqGroups = false := by
-  have hg : c.grouping.needsMqGroups = true ↔ (c.grouping = .mqNative ∨ c.grouping = .rescuedMqNative) := by
-    cases c.grouping <;> simp [Grouping.needsMqGroups]
-  rw [← hg]
+/-- "no score column": a parsed method is refused for lack of an evidence score column exactly when its input
+    file was given, it reads MaxQuant evidence (the only parser that demands the column named by
+    `get_score_column()`: `parsers/maxquant.py`, `required=True`) and its score is MaxQuant's protein score
+    (`MQ_protein`: `get_score_column()` is `None`).  For the other four input types the same score gets past the
+    parser: see `no_protein_score_file_iff`. -/
+theorem no_score_column_iff (s : Supplied) (c : Cfg) :
+    runMethod s c = .error .noScoreColumn ↔
+      s.has c.input = true ∧ c.input = .mq ∧ c.score = .mqProtein := by
+  rw [← scoreColumn_isNone_iff]
   unfold runMethod
+  cases h0 : (c.input == Input.mq) <;>
   cases h1 : s.has c.input <;> cases h2 : c.scoreColumn.isNone <;>
     cases h3 : c.grouping.needsMqGroups <;> cases h4 : s.mqGroups <;>
     cases h5 : c.grouping.rescues <;> cases h6 : c.score.canRescue <;>
-    simp_all [Option.isNone_iff_eq_none, Option.isSome_iff_ne_none]
+    simp_all
+
+/-- the C18 FINDING, as the model states the repaired behaviour: the score `MQ_protein` on Percolator, FragPipe,
+    Sage or DIA-NN input (whose parsers do not demand the score column) is refused — after the grouping's own test
+    for `--mq_protein_groups`, before the rescue test — when the first pass asks the score object for its
+    proteinGroups file, which `parse_method_toml` never supplies.  This holds whether or not `--mq_protein_groups`
+    was given.  The shipped code raises `FileNotFoundError: [Errno 2] No such file or directory: ''` from
+    `MQProteinScore.get_protein_scores_from_file` at exactly these configurations (an internal error where the
+    property demands the tool's own explanatory one); `fixes/C18-mq-protein-score-without-file.diff` makes it the
+    `ValueError` this constructor stands for. -/
+theorem no_protein_score_file_iff (s : Supplied) (c : Cfg) :
+    runMethod s c = .error .noProteinScoreFile ↔
+      s.has c.input = true ∧ c.input ≠ .mq ∧ c.score = .mqProtein ∧
+      (c.grouping.needsMqGroups = true → s.mqGroups = true) := by
+  rw [← scoreColumn_isNone_iff]
+  unfold runMethod
+  cases h0 : (c.input == Input.mq) <;>
+  cases h1 : s.has c.input <;> cases h2 : c.scoreColumn.isNone <;>
+    cases h3 : c.grouping.needsMqGroups <;> cases h4 : s.mqGroups <;>
+    cases h5 : c.grouping.rescues <;> cases h6 : c.score.canRescue <;>
+    simp_all
+
+/-- "missing proteinGroups file": a parsed method is refused for the missing `--mq_protein_groups` exactly when
+    its input file was given, its grouping is MaxQuant's own (`mq_native`, `rescued_mq_native`), no proteinGroups
+    file was given, and it got past its evidence parser — i.e. it is NOT the score `MQ_protein` on MaxQuant input
+    (refused earlier, `no_score_column_iff`).  `MQ_protein` on one of the other four inputs with MaxQuant's
+    grouping IS refused with this error (the grouping comes before the first pass). -/
+theorem missing_mq_protein_groups_iff (s : Supplied) (c : Cfg) :
+    runMethod s c = .error .missingMqProteinGroups ↔
+      s.has c.input = true ∧ ¬ (c.input = .mq ∧ c.score = .mqProtein) ∧
+      (c.grouping = .mqNative ∨ c.grouping = .rescuedMqNative) ∧ s.mqGroups = false := by
+  have hg : c.grouping.needsMqGroups = true ↔ (c.grouping = .mqNative ∨ c.grouping = .rescuedMqNative) := by
+    cases c.grouping <;> simp [Grouping.needsMqGroups]
+  rw [← hg, ← scoreColumn_isNone_iff]
+  unfold runMethod
+  cases h0 : (c.input == Input.mq) <;>
+  cases h1 : s.has c.input <;> cases h2 : c.scoreColumn.isNone <;>
+    cases h3 : c.grouping.needsMqGroups <;> cases h4 : s.mqGroups <;>
+    cases h5 : c.grouping.rescues <;> cases h6 : c.score.canRescue <;>
+    simp_all
 
 /-- the refusals inside the method loop, for the executable `runCli`: the outcome list of a run that reaches the
     loop has one entry per method up to the first refusal — `table` where `runMethod` succeeds, `skipped` where the
     input file is missing — and ends with `abort e` exactly at the first method that `runMethod` refuses with an
-    error `e` other than the missing-input warning; `e` is then one of the three refusals characterised by
-    `no_score_column_iff`, `missing_mq_protein_groups_iff`, `rescue_unsupported_iff` -/
+    error `e` other than the missing-input warning; `e` is then one of the four refusals characterised by
+    `no_score_column_iff`, `missing_mq_protein_groups_iff`, `no_protein_score_file_iff`, `rescue_unsupported_iff` -/
 theorem runCli_abort_iff (tbl : List MethodToml) (g : Bool) (s : Supplied) (ms : List MethodRef)
     (cfgs : List Cfg) (os : List Outcome) (h : runCli tbl g s ms = .ok (cfgs, os)) (e : Err) :
     Outcome.abort e ∈ os ↔
@@ -614,7 +644,7 @@ theorem runCli_abort_iff (tbl : List MethodToml) (g : Bool) (s : Supplied) (ms :
         runMethod s c = .error e ∧ e ≠ .missingInput ∧
         os = pre.map (fun x => match runMethod s x with | .ok () => Outcome.table | .error _ => Outcome.skipped)
               ++ [.abort e] ∧
-        (e = .noScoreColumn ∨ e = .missingMqProteinGroups ∨ e = .rescueUnsupported) := by
+        (e = .noScoreColumn ∨ e = .missingMqProteinGroups ∨ e = .noProteinScoreFile ∨ e = .rescueUnsupported) := by
   obtain ⟨-, -, hos⟩ := (runCli_ok_iff tbl g s ms cfgs os).mp h
   subst hos
   constructor
@@ -645,15 +675,16 @@ theorem shipped_methods_well_typed : ∀ m ∈ Generated.methods, wellTyped m = 
     the five keys (the Bool side conditions `tbl.all wellTyped`, `ms.all MethodRef.wellTyped`) — the ONLY errors
     `runCli` can return are the named refusals `unknownMethod`, `unknownPicked`, `unknownScore`, `unknownGrouping`
     and `missingFasta`; and when it reaches the method loop every outcome is a table, the missing-input warning,
-    or a final `abort` with `noScoreColumn`, `missingMqProteinGroups` or `rescueUnsupported`.  No `missingKey`, and
-    no other value of `Err`, is reachable. -/
+    or a final `abort` with `noScoreColumn`, `missingMqProteinGroups`, `noProteinScoreFile` (repaired behaviour, see
+    `no_protein_score_file_iff`) or `rescueUnsupported`.  No `missingKey`, and no other value of `Err`, is
+    reachable. -/
 theorem runCli_error_set (tbl : List MethodToml) (g : Bool) (s : Supplied) (ms : List MethodRef)
     (htbl : tbl.all wellTyped = true) (hms : ms.all MethodRef.wellTyped = true) :
     (∀ e, runCli tbl g s ms = .error e →
       e = .unknownMethod ∨ e = .unknownPicked ∨ e = .unknownScore ∨ e = .unknownGrouping ∨ e = .missingFasta) ∧
     (∀ cfgs os, runCli tbl g s ms = .ok (cfgs, os) → ∀ o ∈ os,
       o = .table ∨ o = .skipped ∨ o = .abort .noScoreColumn ∨ o = .abort .missingMqProteinGroups ∨
-        o = .abort .rescueUnsupported) := by
+        o = .abort .noProteinScoreFile ∨ o = .abort .rescueUnsupported) := by
   constructor
   · intro e he
     unfold runCli at he
@@ -691,7 +722,7 @@ theorem runCli_error_set (tbl : List MethodToml) (g : Bool) (s : Supplied) (ms :
     | skipped => simp
     | abort e =>
       obtain ⟨-, -, -, -, -, -, -, -, he⟩ := (runCli_abort_iff tbl g s ms cfgs os h e).mp ho
-      rcases he with he | he | he <;> subst he <;> simp
+      rcases he with he | he | he | he <;> subst he <;> simp
 
 /-- for the shipped methods selected by name — protein-level or gene-level — the only errors are an unknown name and
     the missing FASTA file (every shipped file parses, with and without the pseudo-gene fallback) -/
@@ -780,6 +811,30 @@ example : (runCli Generated.methods false everything [.builtin "sage", .custom m
     (·.2) = some [.table, .abort .noScoreColumn] := by decide +kernel
 example : (runCli Generated.methods false everything [.custom mqNativeGrouping]).toOption.map (·.2) =
     some [.abort .missingMqProteinGroups] := by decide +kernel
+/-- `MQ_protein` outside MaxQuant input gets past the parser: refused at the first pass (repaired behaviour; the
+    shipped code dies with `FileNotFoundError ''` here), after the grouping's own refusal, before the rescue test,
+    and also when `--mq_protein_groups` is given -/
+example : (runCli Generated.methods false everything
+    [.builtin "sage", .custom { mqProteinScore with scoreType := some "Perc MQ_protein" }, .builtin "diann"]).toOption.map
+    (·.2) = some [.table, .abort .noProteinScoreFile] := by decide +kernel
+example : (runCli Generated.methods false everything
+    [.custom { mqProteinScore with scoreType := some "Sage MQ_protein", grouping := some "rescued_subset" }]).toOption.map
+    (·.2) = some [.abort .noProteinScoreFile] := by decide +kernel
+example : (runCli Generated.methods false everything
+    [.custom { mqProteinScore with scoreType := some "DIA-NN MQ_protein", grouping := some "mq_native" }]).toOption.map
+    (·.2) = some [.abort .missingMqProteinGroups] := by decide +kernel
+example : (runCli Generated.methods false { everything with mqGroups := true }
+    [.custom { mqProteinScore with scoreType := some "FragPipe MQ_protein", grouping := some "mq_native" }]).toOption.map
+    (·.2) = some [.abort .noProteinScoreFile] := by decide +kernel
+example : (runCli Generated.methods false { everything with mqGroups := true }
+    [.custom { mqProteinScore with scoreType := some "no_remap MQ_protein", grouping := some "mq_native" }]).toOption.map
+    (·.2) = some [.abort .noScoreColumn] := by decide +kernel
+/-- `Andromeda` (column `"score"`) is read from every input type -/
+example : (runCli Generated.methods false everything
+    [.custom { mqProteinScore with scoreType := some "Perc Andromeda" },
+     .custom { mqProteinScore with scoreType := some "Sage Andromeda" },
+     .custom { mqProteinScore with scoreType := some "DIA-NN Andromeda" }]).toOption.map
+    (·.2) = some [.table, .table, .table] := by decide +kernel
 example : (runCli Generated.methods false { everything with mqGroups := true } [.custom mqNativeGrouping]).toOption.map
     (·.2) = some [.table] := by decide +kernel
 example : (runCli Generated.methods false { everything with mq := false } [.custom mqNativeGrouping]).toOption.map
